@@ -26,7 +26,7 @@ THEOREMS = [
     "C14.needs_quotes_counterexample",
     "C14.needs_quotes_partial",
     "C14.literal_roundtrip",
-    "C14.raw_literal_roundtrip",
+    "C14.mssql_literal_roundtrip",
     "C14.stmt_dropColumn",
     "C14.stmt_renameTable",
     "C14.stmt_addColumn",
@@ -34,15 +34,14 @@ THEOREMS = [
     "C14.stmt_columnType",
     "C14.stmt_columnName",
     "C14.stmt_columnDefault",
-    "C14.stmt_columnComment_postgresql",
+    "C14.stmt_columnComment",
     "C14.stmt_identity",
     "C14.stmt_mysqlAlterDefault",
     "C14.stmt_mysqlModify",
     "C14.stmt_mysqlChange",
     "C14.good_iff",
-    "C14.columnComment_oracle_counterexample",
-    "C14.mssql_literal_counterexample",
-    "C14.stmt_mssql_columnName_partial",
+    "C14.stmt_mssql_columnName",
+    "C14.stmt_mssql_renameTable",
     "C14.percent_counterexample",
     "C14.tab_counterexample",
 ]
@@ -54,10 +53,9 @@ PARTIAL = {
     "NameOK (non-empty, no '%' on the %-doubling dialects, no TAB, no trailing newline, not quoted_name(quote=False)) and okText for "
     "the SQLAlchemy-rendered texts; it speaks about `compiled statement ++ command terminator`, the TAB/strip post-processing of "
     "DefaultImpl._exec is covered by the correspondence only (tab_counterexample shows it matters exactly for TAB)",
-    "C14.columnComment_oracle_counterexample": "F6: no positive theorem for oracle COMMENT ON COLUMN until the visitor quotes/qualifies",
-    "C14.stmt_mssql_columnName_partial": "F7 partial: sp_rename '<table>.<column>', <new>, 'COLUMN' proved for all names without a single "
-    "quote in the schema/table/column; the analogous partials for sp_rename of a table, _ExecDropConstraint and _ExecDropFKConstraint "
-    "are not proved (correspondence + spec-on-implementation only); same for MySQL DROP CHECK/CONSTRAINT/FOREIGN KEY/INDEX",
+    "C14.stmt_mssql_*": "since the fixes of F6/F7 COMMENT ON COLUMN (oracle) and both sp_rename forms are proved for all names; the "
+    "token shapes of _ExecDropConstraint/_ExecDropFKConstraint (three literals each) and of MySQL/MariaDB DROP CHECK/CONSTRAINT/"
+    "FOREIGN KEY/INDEX are modelled, specified and checked by the correspondence + spec-on-implementation only (no theorem)",
 }
 TRUSTED = [
     "SQLAlchemy's rendering of types, server defaults, comment literals and column specifications (opaque texts passed to the model; "
@@ -282,23 +280,6 @@ def search(ctx):
 
 
 # ------------------------------------------------------------------------------------------------
-LITERAL_NAMES = {  # MSSQL constructs that embed names in '...' literals, and which names
-    "renameTable": ("t", "schema"),
-    "columnName": ("t", "schema", "col"),
-    "mssqlDropConstraint": ("t", "schema", "rawcol"),
-    "mssqlDropFK": ("t", "schema", "rawcol"),
-}
-
-
-def _names(cj, keys):
-    out = []
-    for k in keys:
-        v = cj.get(k)
-        if v is not None:
-            out.append(I.name_str(v))
-    return out
-
-
 def classify(failure):
     """Narrow structural signatures of the known findings (construct + dialect + name class + form of the text)."""
     inp = failure.get("input") or {}
@@ -307,15 +288,8 @@ def classify(failure):
     k = cj.get("c")
     emitted = (failure.get("impl") or {}).get("emitted") or ""
     allnames = I.all_names(cj)
-    if any("\t" in n for n in allnames):
+    if any("\t" in n for n in allnames) and "\t" not in emitted:
         return "C14-TAB"
-    if d == "oracle" and k == "columnComment":
-        raw = "COMMENT ON COLUMN %s.%s IS " % (I.name_str(cj["t"]), I.name_str(cj["col"]))
-        if emitted.startswith(raw.replace("\t", "    ").lstrip()):
-            return "F6"
-        return None
-    if d == "mssql" and k in LITERAL_NAMES and any("'" in n for n in _names(cj, LITERAL_NAMES[k])):
-        return "F7"
     if d in ("postgresql", "mysql", "mariadb") and any("%" in n for n in allnames) and "%%" in emitted:
         return "C14-PERCENT"
     return None
